@@ -17,7 +17,14 @@ from physt.histogram_collection import HistogramCollection
 # ----------------------------------------------------------------------------
 def arr_key(a):
     a = np.asarray(a)
-    return (a.dtype.str, tuple(a.shape), np.ascontiguousarray(a).tobytes())
+    c = np.ascontiguousarray(a)
+    if a.dtype == np.longdouble and a.dtype.itemsize == 16:
+        # x86 80-bit extended precision stored in 16 bytes: the 6 padding bytes are uninitialised
+        # memory and would make snapshots (and digests) nondeterministic
+        raw = c.view(np.uint8).reshape(-1, 16).copy()
+        raw[:, 10:] = 0
+        return (a.dtype.str, tuple(a.shape), raw.tobytes())
+    return (a.dtype.str, tuple(a.shape), c.tobytes())
 
 
 def fbits(x):
